@@ -62,6 +62,12 @@ pub const EXTRA: &[&str] = &[
     "from t | select {k = a, b} | sort b | take 5 | group k (sort b | take 1)",
     "from t | group a (aggregate {m = max b}) | join u (==a) | group m (sort u.d | take 1)",
     "from t | join u (==a) | group {t.a, u.d} (sort t.b | take 1) | sort d | take 3 | group d (sort a | take 1)",
+    // a plain column computed from a window function, used in front of an aggregation
+    "from t | derive {r = row_number a} | derive {x = r + 1} | aggregate {s = sum x}",
+    "from t | group a (derive {share = b / (sum b)}) | group a (aggregate {m = max share})",
+    "from t | derive {r = rank b} | derive {x = r * 2} | group x (aggregate {n = count this})",
+    "from t | derive {r = lag 1 b} | derive {x = r + 1} | filter x > 1 | aggregate {n = count this}",
+    "from t | derive {r = sum b} | derive {x = r - b} | sort x | take 2 | aggregate {m = min x}",
     // expressions that the resolver folds before the SQL stage sees them
     "from t | derive {y = case [false => 1, true => 2]}",
     "from t | derive {y = case [1 == 2 => a, 3 != 3 => b, true => a + b]} | filter y > 1",
